@@ -1,4 +1,16 @@
-//! mon_comp — monitors; dispatches on --prop.
+//! mon_comp — user-component monitors; dispatches on --prop.
+//!
+//! C35: user components see correct values and timing on every transport.
+
+// The fixture components: literally the source of the cdylib that the dlopen
+// transport loads, compiled into this binary for the in-process static registry.
+#[path = "../../fixtures/c35_comp/src/lib.rs"]
+#[allow(dead_code)]
+pub mod c35_fixture;
+
+mod c35;
+mod c35_build;
+mod c35_sim;
 
 use vcommon::Args;
 
@@ -6,6 +18,7 @@ fn main() {
     vcommon::pool::install_panic_hook();
     let args = Args::parse();
     match args.prop.as_str() {
+        "C35" => c35::main(args),
         p => {
             eprintln!("mon_comp: unknown property {p}");
             std::process::exit(2);
